@@ -930,6 +930,31 @@ func init() {
 			c.at(point, true)
 		}
 	}
+	// round 4: the parser's own steps in the tail of run (C08's statement yield points 20: the loop has been
+	// left, 25: EOF has been emitted, 29: the channel is closed and the closed token sent) are recorded as
+	// items of the forced traces, so that they are labels of the replay and not hidden steps.  A panic of the
+	// parser goroutine or of the timer callback (reported to an installed hook at points 19 / 39) is passed on.
+	ansi.VerifSchedHook = func(p *ansi.Parser, point int, panicked any) {
+		if panicked != nil {
+			panic(panicked)
+		}
+		var item string
+		switch point {
+		case 20:
+			item = "P:parser.tail"
+		case 25:
+			item = "P:parser.eof"
+		case 29:
+			item = "P:parser.closed"
+		default:
+			return
+		}
+		if c, _ := curCtl.Load().(*ctl); c != nil {
+			c.mu.Lock()
+			c.trace = append(c.trace, item)
+			c.mu.Unlock()
+		}
+	}
 }
 
 func goid() (string, string) {
